@@ -55,7 +55,7 @@ func connopsRegister(s connopsSet) {
 	mk := func(tier string) []vsched.Variant {
 		cfgs, bound, shards, budget := s.quick, s.qBound, 1, 75
 		if tier == "thorough" {
-			cfgs, bound, shards, budget = append(append([]connopsCfg{}, s.quick...), s.thor...), s.tBound, 8, 280
+			cfgs, bound, shards, budget = append(append([]connopsCfg{}, s.quick...), s.thor...), s.tBound, 4, 150
 		}
 		var out []vsched.Variant
 		for _, c := range cfgs {
